@@ -837,9 +837,17 @@ func (c *zvCase) zvRequests(nearN int, pick func(n int) int) []zvReq {
 				push(&near, n)
 			}
 			if p.PathPrefix != "" {
-				n := s.clone()
-				n.Path = p.PathPrefix
-				push(&near, n)
+				// the prefix itself, and paths that share its characters but stop short of / run past the last
+				// segment boundary (a prefix "/v1/" must not match "/v1" or "/v10/x")
+				t := strings.TrimSuffix(p.PathPrefix, "/")
+				for _, np := range []string{p.PathPrefix, t, t + "0/secret", t + "-docs", p.PathPrefix + "x"} {
+					if np == "" {
+						np = "/"
+					}
+					n := s.clone()
+					n.Path = np
+					push(&near, n)
+				}
 			}
 			// near-misses of each header
 			for _, h := range p.Hdr {
